@@ -499,3 +499,27 @@ pub fn emergency_exit(sig: i32, addr: u64, rip: u64, bytes: &[u8]) -> ! {
     }
     unsafe { libc::_exit(code) };
 }
+
+// ---------------------------------------------------------------------------------------------
+// sentinels around inline asm
+// ---------------------------------------------------------------------------------------------
+
+/// Thirteen values are kept live (in registers, in an optimised build) across the wrapper, whose asm must declare every
+/// register the instruction writes: an undeclared clobber shows up as a changed value. The trap monitor writes the
+/// instruction's architectural outputs (EAX/EDX for rdmsr and xgetbv, the destination of mov from crN/drN ...) into the
+/// interrupted context, exactly as the hardware would.
+#[inline(never)]
+pub fn under_register_pressure<R>(seed: u64, f: impl FnOnce() -> R) -> (u64, R) {
+    use core::hint::black_box as bb;
+    let (a0, a1, a2, a3, a4, a5, a6) = (bb(seed), bb(seed.wrapping_mul(3)), bb(seed.wrapping_mul(5)), bb(seed.wrapping_mul(7)), bb(seed.wrapping_mul(11)), bb(seed.wrapping_mul(13)), bb(seed.wrapping_mul(17)));
+    let (a7, a8, a9, a10, a11, a12) = (bb(seed.wrapping_mul(19)), bb(seed.wrapping_mul(23)), bb(seed.wrapping_mul(29)), bb(seed.wrapping_mul(31)), bb(seed.wrapping_mul(37)), bb(seed.wrapping_mul(41)));
+    let r = f();
+    let sum = bb(a0) ^ bb(a1).rotate_left(1) ^ bb(a2).rotate_left(2) ^ bb(a3).rotate_left(3) ^ bb(a4).rotate_left(4) ^ bb(a5).rotate_left(5) ^ bb(a6).rotate_left(6) ^ bb(a7).rotate_left(7) ^ bb(a8).rotate_left(8) ^ bb(a9).rotate_left(9) ^ bb(a10).rotate_left(10) ^ bb(a11).rotate_left(11) ^ bb(a12).rotate_left(12);
+    (sum, r)
+}
+
+pub fn pressure_expected(seed: u64) -> u64 {
+    let m = [1u64, 3, 5, 7, 11, 13, 17, 19, 23, 29, 31, 37, 41];
+    m.iter().enumerate().fold(0u64, |a, (i, &k)| a ^ seed.wrapping_mul(k).rotate_left(i as u32))
+}
+
